@@ -32,24 +32,24 @@ Catalogue == <<
 
 VSer(i) == 10 * i + 1
 FSer(i) == 10 * i + 2
-\* pages of link i (without offsets): [len, ser, gp, bos, hp, dur]
+\* pages of link i (without offsets): [len, ser, gp, bos, hp, bs]
 LinkPages(i, c) ==
   LET sh == Catalogue[c.shape]  L == c.len
-      vb == [len |-> 1, ser |-> VSer(i), gp |-> 0, bos |-> TRUE, hp |-> 1, dur |-> 0]
-      fb == [len |-> 1, ser |-> FSer(i), gp |-> 0, bos |-> TRUE, hp |-> 0, dur |-> 0]
+      vb == [len |-> 1, ser |-> VSer(i), gp |-> 0, bos |-> TRUE, hp |-> 1, bs |-> <<>>]
+      fb == [len |-> 1, ser |-> FSer(i), gp |-> 0, bos |-> TRUE, hp |-> 0, bs |-> <<>>]
       bosp == IF sh.mux = 0 THEN <<vb>> ELSE IF sh.mux = 1 THEN <<vb, fb>> ELSE <<fb, vb>>
-      hdrp == IF sh.hdr = 1 THEN << [len |-> L, ser |-> VSer(i), gp |-> 0, bos |-> FALSE, hp |-> 2, dur |-> 0] >>
-              ELSE << [len |-> L, ser |-> VSer(i), gp |-> 0, bos |-> FALSE, hp |-> 1, dur |-> 0], [len |-> 1, ser |-> VSer(i), gp |-> 0, bos |-> FALSE, hp |-> 1, dur |-> 0] >>
+      hdrp == IF sh.hdr = 1 THEN << [len |-> L, ser |-> VSer(i), gp |-> 0, bos |-> FALSE, hp |-> 2, bs |-> <<>>] >>
+              ELSE << [len |-> L, ser |-> VSer(i), gp |-> 0, bos |-> FALSE, hp |-> 1, bs |-> <<>>], [len |-> 1, ser |-> VSer(i), gp |-> 0, bos |-> FALSE, hp |-> 1, bs |-> <<>>] >>
       nv(k) == Cardinality({ j \in 1..k : sh.data[j] = "v" })
       datap == [k \in 1..Len(sh.data) |->
-                 IF sh.data[k] = "v" THEN [len |-> L, ser |-> VSer(i), gp |-> c.g0 + 3 * nv(k), bos |-> FALSE, hp |-> 0, dur |-> 3]
-                 ELSE IF sh.data[k] = "n" THEN [len |-> L, ser |-> VSer(i), gp |-> -1, bos |-> FALSE, hp |-> 0, dur |-> 0]
-                 ELSE [len |-> L, ser |-> FSer(i), gp |-> 7, bos |-> FALSE, hp |-> 0, dur |-> 0]]
+                 IF sh.data[k] = "v" THEN [len |-> L, ser |-> VSer(i), gp |-> c.g0 + 3 * nv(k), bos |-> FALSE, hp |-> 0, bs |-> <<4, 8>>]
+                 ELSE IF sh.data[k] = "n" THEN [len |-> L, ser |-> VSer(i), gp |-> -1, bos |-> FALSE, hp |-> 0, bs |-> <<>>]
+                 ELSE [len |-> L, ser |-> FSer(i), gp |-> 7, bos |-> FALSE, hp |-> 0, bs |-> <<>>]]
   IN bosp \o hdrp \o datap
 RECURSIVE Flat(_, _)
 Flat(ch, i) == IF i > Len(ch) THEN <<>> ELSE LinkPages(i, ch[i]) \o Flat(ch, i + 1)
 RECURSIVE WithOff(_, _, _)
-WithOff(ps, k, o) == IF k > Len(ps) THEN <<>> ELSE << [off |-> o, len |-> ps[k].len, ser |-> ps[k].ser, gp |-> ps[k].gp, bos |-> ps[k].bos, hp |-> ps[k].hp, dur |-> ps[k].dur,
+WithOff(ps, k, o) == IF k > Len(ps) THEN <<>> ELSE << [off |-> o, len |-> ps[k].len, ser |-> ps[k].ser, gp |-> ps[k].gp, bos |-> ps[k].bos, hp |-> ps[k].hp, bs |-> ps[k].bs,
                                                          ours |-> FALSE] >> \o WithOff(ps, k + 1, o + ps[k].len)
 \* damage: a file of well-formed pages (every checksum right) that no encoder wrote - one page with another serial number, BOS flag or granule position, missing or doubled
 DamageKinds == {"ser-foreign", "ser-other", "ser-new", "bos", "gp-none", "gp-zero", "gp-big", "gp-neg", "drop", "dup"}
